@@ -1136,11 +1136,12 @@ func zipInnerSubscription[T any](subscriberCtx context.Context, obs Observable[T
 					if len(*values) == 0 {
 						mu.Unlock()
 						destination.CompleteWithContext(ctx)
+						subscriptions.Unsubscribe()
 					} else {
+						// The queued values still wait for their partners: the other sources stay
+						// subscribed, and onUpdate completes the output once this queue is drained.
 						mu.Unlock()
 					}
-
-					subscriptions.Unsubscribe()
 				},
 			),
 		),
@@ -1187,11 +1188,15 @@ func ZipWith1[A, B any](obsB Observable[B]) func(Observable[A]) Observable[lo.Tu
 					destination.NextWithContext(ctx, lo.T2(*a, *b)) // @TODO: Send the last context ?
 
 					mu.Lock()
+					done := (completedA && len(valueA) == 0) || (completedB && len(valueB) == 0)
+					mu.Unlock()
 
-					if (completedA && len(valueA) == 0) ||
-						(completedB && len(valueB) == 0) {
+					// Out of lock: completing the destination runs the teardown, which takes `mu`.
+					if done {
 						destination.CompleteWithContext(ctx) // @TODO: Send the last context ?
 					}
+
+					return
 				}
 
 				mu.Unlock()
@@ -1253,12 +1258,15 @@ func ZipWith2[A, B, C any](obsB Observable[B], obsC Observable[C]) func(Observab
 					destination.NextWithContext(ctx, lo.T3(*a, *b, *c)) // @TODO: Send the last context ?
 
 					mu.Lock()
+					done := (completedA && len(valueA) == 0) || (completedB && len(valueB) == 0) || (completedC && len(valueC) == 0)
+					mu.Unlock()
 
-					if (completedA && len(valueA) == 0) ||
-						(completedB && len(valueB) == 0) ||
-						(completedC && len(valueC) == 0) {
+					// Out of lock: completing the destination runs the teardown, which takes `mu`.
+					if done {
 						destination.CompleteWithContext(ctx) // @TODO: Send the last context ?
 					}
+
+					return
 				}
 
 				mu.Unlock()
@@ -1326,13 +1334,15 @@ func ZipWith3[A, B, C, D any](obsB Observable[B], obsC Observable[C], obsD Obser
 					destination.NextWithContext(ctx, lo.T4(*a, *b, *c, *d)) // @TODO: Send the last context ?
 
 					mu.Lock()
+					done := (completedA && len(valueA) == 0) || (completedB && len(valueB) == 0) || (completedC && len(valueC) == 0) || (completedD && len(valueD) == 0)
+					mu.Unlock()
 
-					if (completedA && len(valueA) == 0) ||
-						(completedB && len(valueB) == 0) ||
-						(completedC && len(valueC) == 0) ||
-						(completedD && len(valueD) == 0) {
+					// Out of lock: completing the destination runs the teardown, which takes `mu`.
+					if done {
 						destination.CompleteWithContext(ctx) // @TODO: Send the last context ?
 					}
+
+					return
 				}
 
 				mu.Unlock()
@@ -1407,14 +1417,15 @@ func ZipWith4[A, B, C, D, E any](obsB Observable[B], obsC Observable[C], obsD Ob
 					destination.NextWithContext(ctx, lo.T5(*a, *b, *c, *d, *e)) // @TODO: Send the last context ?
 
 					mu.Lock()
+					done := (completedA && len(valueA) == 0) || (completedB && len(valueB) == 0) || (completedC && len(valueC) == 0) || (completedD && len(valueD) == 0) || (completedE && len(valueE) == 0)
+					mu.Unlock()
 
-					if (completedA && len(valueA) == 0) ||
-						(completedB && len(valueB) == 0) ||
-						(completedC && len(valueC) == 0) ||
-						(completedD && len(valueD) == 0) ||
-						(completedE && len(valueE) == 0) {
+					// Out of lock: completing the destination runs the teardown, which takes `mu`.
+					if done {
 						destination.CompleteWithContext(ctx) // @TODO: Send the last context ?
 					}
+
+					return
 				}
 
 				mu.Unlock()
@@ -1497,15 +1508,15 @@ func ZipWith5[A, B, C, D, E, F any](obsB Observable[B], obsC Observable[C], obsD
 					destination.NextWithContext(ctx, lo.T6(*a, *b, *c, *d, *e, *f)) // @TODO: Send the last context ?
 
 					mu.Lock()
+					done := (completedA && len(valueA) == 0) || (completedB && len(valueB) == 0) || (completedC && len(valueC) == 0) || (completedD && len(valueD) == 0) || (completedE && len(valueE) == 0) || (completedF && len(valueF) == 0)
+					mu.Unlock()
 
-					if (completedA && len(valueA) == 0) ||
-						(completedB && len(valueB) == 0) ||
-						(completedC && len(valueC) == 0) ||
-						(completedD && len(valueD) == 0) ||
-						(completedE && len(valueE) == 0) ||
-						(completedF && len(valueF) == 0) {
+					// Out of lock: completing the destination runs the teardown, which takes `mu`.
+					if done {
 						destination.CompleteWithContext(ctx) // @TODO: Send the last context ?
 					}
+
+					return
 				}
 
 				mu.Unlock()
@@ -1575,12 +1586,23 @@ func zipAllInnerSubscriptions[T any](outerCtx context.Context, sources []Observa
 
 			mu.Lock()
 
+			done := false
+
 			for i := range sources {
 				if completed[i] && len(values[i]) == 0 {
-					destination.CompleteWithContext(ctx) // @TODO: Send the last context ?
+					done = true
 					break
 				}
 			}
+
+			mu.Unlock()
+
+			// Out of lock: completing the destination runs the teardown, which takes `mu`.
+			if done {
+				destination.CompleteWithContext(ctx) // @TODO: Send the last context ?
+			}
+
+			return
 		}
 
 		mu.Unlock()
